@@ -57,6 +57,49 @@ def fingerprint():
     return parts
 
 
+def render_history():
+    """(runs in a fresh interpreter) every statement of a small family is rendered by renderers built from the SQLAlchemy
+    dialect CLASSES first, then renderers for all dialect NAMES are created and used (plus failing parses/plans), then the
+    first renderings are repeated; they must be identical"""
+    from sqlalchemy.dialects import mysql, postgresql, sqlite, mssql, oracle
+    from mindsdb_sql import parse_sql
+    from mindsdb_sql.render.sqlalchemy_render import SqlalchemyRender
+    from harness import c17lib
+    classes = {'mysql.dialect': mysql.dialect, 'postgresql.dialect': postgresql.dialect, 'sqlite.dialect': sqlite.dialect,
+               'mssql.dialect': mssql.dialect, 'oracle.dialect': oracle.dialect}
+    sqls = [s for s in c17lib.EXTRA] + ["SELECT CAST(a AS FLOAT) FROM t", "SELECT CAST(a AS INT) AS x FROM t LIMIT 2", "INSERT INTO t (a) VALUES (1), (2)",
+                                         "SELECT a FROM t ORDER BY a NULLS FIRST LIMIT 1 OFFSET 1", "SELECT TRUE, FALSE, NULL FROM t"]
+    trees = []
+    for s_ in sqls:
+        try:
+            trees.append((s_, parse_sql(s_, 'mindsdb')))
+        except Exception:  # noqa
+            pass
+
+    def pass_(which):
+        out = {}
+        for cname, cls in classes.items():
+            for s_, t in trees:
+                try:
+                    out[(cname, s_)] = SqlalchemyRender(cls).get_string(t)
+                except Exception as e:  # noqa
+                    out[(cname, s_)] = 'EXC %s' % type(e).__name__
+        return out
+    before = pass_(0)
+    for name in c17lib.DIALECTS:
+        r = SqlalchemyRender(name)
+        for s_, t in trees:
+            try:
+                r.get_string(t)
+                r.get_exec_params(t)
+            except Exception:  # noqa
+                pass
+    battery()
+    after = pass_(1)
+    diffs = [{'dialect': k[0], 'sql': k[1], 'before': before[k], 'after': after[k]} for k in before if before[k] != after[k]]
+    return {'compared': len(before), 'differences': diffs}
+
+
 def battery():
     """a battery of parse / plan / render calls over the corpus and the planner family, failures included"""
     from mindsdb_sql import parse_sql
@@ -187,6 +230,26 @@ def run(tier):
     # ---- (c) catalog reuse
     path, names = gen()
     ch_obligations(run, path, [dict(fn=n_, twin=None, replay=r_reuse) for n_ in names], cond_to=300 if tier == 'quick' else 900, path_to=60)
+    # ---- (d) render histories in a fresh interpreter: a renderer built from a dialect CLASS before / after other renderers
+    try:
+        code = ("import sys, json, warnings; warnings.filterwarnings('ignore'); sys.path.insert(0, %r)\n"
+                "from harness.C20 import render_history\nprint('@@' + json.dumps(render_history()))\n") % VERIF
+        o = subprocess.run([PY, '-c', code], capture_output=True, text=True, env=dict(os.environ, PYTHONPATH=VERIF), timeout=600)
+        line = [l for l in o.stdout.splitlines() if l.startswith('@@')]
+        if not line:
+            run.error('render history subprocess failed: %s' % (o.stderr[-300:],))
+        else:
+            res = json.loads(line[0][2:])
+            run.validated += res['compared']
+            if res['differences']:
+                d0 = res['differences'][0]
+                run.counterexample('render-history:%s' % d0['dialect'], 'rendering %r with %s gives %r before and %r after other renderers were used' %
+                                   (d0['sql'], d0['dialect'], d0['before'], d0['after']), {'differences': res['differences'][:5]}, True)
+                run.ob('render-history:dialect-class-vs-name', 'counterexample', len(res['differences']))
+            else:
+                run.ob('render-history:dialect-class-vs-name', 'discharged', '%d renderings compared' % res['compared'])
+    except Exception as e:  # noqa
+        run.error('render history part crashed: %r' % e)
     # ---- hash-seed sample (not a verdict)
     try:
         outs = []
